@@ -40,7 +40,7 @@ def gen(tier, rng, shard, nshards):
             # start vectors whose Krylov space is exhausted *exactly* (residual identically zero, not merely ~1e-16):
             # kernel vector of an integer graph Laplacian, the zero operator, a coordinate eigenvector of a diagonal matrix
             yield {"n": int(S.pick(rng, [3, 4, 6, 9, 12])), "dt": S.pick(rng, ["f8", "c16"]), "family": "exact-kernel", "seed": S.seed(rng),
-                   "start": S.pick(rng, ["laplacian-ones", "zero-operator", "diagonal-coordinate"]), "max_iters": S.pick(rng, ["2", "n//2", "n", "n+5", "default"]),
+                   "start": S.pick(rng, ["laplacian-ones", "zero-operator", "diagonal-coordinate", "identity-operator", "identity-operator", "exchange-operator"]), "max_iters": S.pick(rng, ["2", "n//2", "n", "n+5", "default"]),
                    "tol": float(S.pick(rng, [0.0, 1e-12, 1e-8, 1e-3])), "fn": S.pick(rng, ["lanczos", "lanczos_eigs", "Lanczos()"]), "scale": 1.0}
 
 
@@ -55,6 +55,21 @@ def build(case):
         elif case["start"] == "zero-operator":
             M = np.zeros((n, n))
             v = rng.integers(1, 5, size=n).astype(float)
+        elif case["start"] == "exchange-operator":
+            # a matrix-free Hermitian operator whose product returns a *view* of its operand (the exchange matrix, X -> X[::-1]);
+            # spectrum +-1, Krylov dimension 2
+            case["tol"] = max(case["tol"], 1e-12)
+            M = np.eye(n)[::-1].copy()
+            v = rng.standard_normal(n) + (1j * rng.standard_normal(n) if cplx else 0)
+            M, v = M.astype(P.DT[dt]), v.astype(P.DT[dt])
+            mi = {"2": 2, "n//2": max(1, n // 2), "n": n, "n+5": n + 5, "default": None}[case["max_iters"]]
+            return M, v, np.linalg.eigvalsh(M), 2, mi, None
+        elif case["start"] == "identity-operator":
+            # operators whose product hands its operand back (Identity and friends): the routine must not write into it.
+            # (q^H q is 1 only up to rounding, so the residual is ~1e-16 q, not identically zero: tol = 0 is not admissible here)
+            case["tol"] = max(case["tol"], 1e-12)
+            M = np.eye(n)
+            v = rng.standard_normal(n) + (1j * rng.standard_normal(n) if cplx else 0)
         else:
             M = np.diag(rng.permutation(np.arange(1, n + 1)).astype(float) - 2.0)
             v = np.zeros(n)
@@ -207,6 +222,16 @@ def run_case(ctx, case):
     for key in ("family", "start", "max_iters", "fn"):
         ctx.count(key, case[key])
     A = cola.SelfAdjoint(cola.ops.Dense(M))
+    if case["start"] == "exchange-operator":
+        A = cola.SelfAdjoint(cola.ops.LinearOperator(M.dtype, M.shape, matmat=lambda X: X[::-1]))
+    if case["start"] == "identity-operator":
+        kind = ["Identity", "I_like", "SelfAdjoint(Identity)", "Kronecker(I,I)", "Identity.H"][case["seed"] % 5]
+        I = cola.ops.Identity((n, n), M.dtype)
+        if kind == "Kronecker(I,I)" and n % 3 == 0:
+            A = cola.ops.Kronecker(cola.ops.Identity((3, 3), M.dtype), cola.ops.Identity((n // 3, n // 3), M.dtype))
+        else:
+            A = {"Identity": I, "I_like": cola.ops.I_like(cola.ops.Dense(M)), "SelfAdjoint(Identity)": cola.SelfAdjoint(I), "Identity.H": I.H}.get(kind, I)
+        ctx.count("identity_kind", kind)
     preds = {"start": case["start"], "family": case["family"], "complex": np.iscomplexobj(M), "fn": case["fn"], "max_iters": case["max_iters"]}
     if v is not None and np.iscomplexobj(M) and not np.iscomplexobj(v):
         preds["start_narrower_than_operator"] = True
@@ -248,7 +273,10 @@ def run_case(ctx, case):
     if case["fn"] == "Lanczos()" and not batched:
         out = ctx.call(Lanczos(**kw), A)
     else:
-        out = ctx.call(lanczos, A, **kw)
+        if case["seed"] % 3 == 0 and set(kw) == {"start_vector", "max_iters", "tol"}:  # documented positional form
+            out = ctx.call(lanczos, A, kw["start_vector"], kw["max_iters"], kw["tol"])
+        else:
+            out = ctx.call(lanczos, A, **kw)
     if is_err(out):
         ctx.check("returns", False, site="lanczos", preds=preds, detail={"error": repr(out)})
         return
